@@ -521,6 +521,11 @@ func genC07(r *Rng) *Scenario {
 		sc.Ops = append(sc.Ops, op)
 	}
 	t += cfg.LatC2BUs + 50
+	if r.chance(0.08) {
+		// another goroutine disconnects while the requests wait: none of them may
+		// report success without its acknowledgement
+		sc.Ops = append(sc.Ops, Op{AtUs: t + r.between(0, 300), Actor: 99, Kind: "disconnect", Cli: 0})
+	}
 	// releases of held answers in permuted order, forged acks in between
 	perm := r.Perm(n + 3) // some indices do not exist (yet): PUBCOMPs appear after PUBRELs
 	nItems := int(r.between(int64(n), int64(2*n+4)))
